@@ -21,13 +21,14 @@ type operator struct {
 	precedence    int
 	associativity associativity
 	apply         func(*big.Int, *big.Int, *big.Int) *big.Int
+	divisor       bool // second operand must be non-zero
 }
 
 // operators supported by the calculator.
 var operators = map[byte]operator{
 	'^': {precedence: 3, associativity: rightassociative, apply: func(z, x, y *big.Int) *big.Int { return z.Exp(x, y, nil) }},
 	'*': {precedence: 3, associativity: leftassociative, apply: (*big.Int).Mul},
-	'/': {precedence: 3, associativity: leftassociative, apply: (*big.Int).Div},
+	'/': {precedence: 3, associativity: leftassociative, apply: (*big.Int).Div, divisor: true},
 	'+': {precedence: 2, associativity: leftassociative, apply: (*big.Int).Add},
 	'-': {precedence: 2, associativity: leftassociative, apply: (*big.Int).Sub},
 }
@@ -68,6 +69,10 @@ func (y *yard) apply(op operator) error {
 	n := len(y.operands)
 	if n < 2 {
 		return errors.New("too few operands")
+	}
+
+	if op.divisor && y.operands[n-1].Sign() == 0 {
+		return errors.New("division by zero")
 	}
 
 	z := new(big.Int)
